@@ -65,6 +65,7 @@ fn take_calls() -> u64 {
 fn decode(k: Kind, ycode: u32, xcode: u32, lat_ref: f64, lon_ref: f64) -> Result<Option<Position>, String> {
     use std::sync::OnceLock;
     CALLS.with(|c| c.set(c.get() + 1));
+    set_case(5 | ((k.surface as u64) << 8) | ((k.odd as u64) << 9), ((ycode as u64) << 32) | xcode as u64, lat_ref.to_bits(), lon_ref.to_bits());
     static AIR: OnceLock<[rs1090::decode::bds::bds05::AirbornePosition; 2]> = OnceLock::new();
     static SURF: OnceLock<[rs1090::decode::bds::bds06::SurfacePosition; 2]> = OnceLock::new();
     if k.surface {
